@@ -380,8 +380,12 @@ func (c *Ctx) Finish() int {
 	}
 	os.MkdirAll(filepath.Join(Root, "replay"), 0o755)
 	sort.SliceStable(c.viol, func(i, j int) bool { return len(c.viol[i].Sig) < len(c.viol[j].Sig) })
+	show := 10
+	if s := os.Getenv("VERIF_SHOW"); s != "" {
+		show, _ = strconv.Atoi(s)
+	}
 	for i, v := range c.viol {
-		if i >= 10 {
+		if i >= show {
 			break
 		}
 		h := sha256.Sum256([]byte(v.Sig))
